@@ -11,6 +11,9 @@
   Element type X is `ProbeE` (an embedded element holding one plain pointer); `xin k words | op` runs `op` on the statement machine of
   Cello/HeapMid.lean (the statement lists of the current source), takes the k-th view that is a ProbeE destructor / Assign call, and collects on the
   heap in which the container is that intermediate state (words ++ the container ++ the operand as root words); `cin` is the full-mode form.
+  Element type D is `ProbeDeep` (an embedded record of three fields whose Assign instance ALLOCATES a fresh object per field): the ops
+  `dpush dins daset dtset dconcat dassign` (section at the end), behind `xin k` / `cin k` with `k` = an allocation point of the operation, run on
+  `Mid.DMach`; the collection sees the container with the element under assignment partly assigned (`MState.over`).
 -/
 import Cello.Heap
 import Cello.HeapRec
@@ -67,14 +70,15 @@ def Kind.isMap : Kind → Bool | .T | .E => true | _ => false
     element / value type only) -/
 inductive Ety where
   | R | I | S | F | X
+  | D      -- `ProbeDeep`: an embedded record of three pointer fields whose Assign instance allocates a fresh object per field (a deep copy)
 deriving Repr, Inhabited, DecidableEq
 
 def Ety.name : Ety → String
-  | .R => "Ref" | .I => "Int" | .S => "String" | .F => "Float" | .X => "ProbeE"
+  | .R => "Ref" | .I => "Int" | .S => "String" | .F => "Float" | .X => "ProbeE" | .D => "ProbeDeep"
 
 def parseEty (c : Char) : Option Ety :=
   if c = 'R' then some .R else if c = 'I' then some .I else if c = 'S' then some .S else if c = 'F' then some .F
-  else if c = 'X' then some .X else none
+  else if c = 'X' then some .X else if c = 'D' then some .D else none
 
 structure MObj where
   kind : Kind
@@ -106,6 +110,9 @@ structure MState where
   minId : Option Nat := none      -- lowest / highest object ever registered: gc->minptr / gc->maxptr
   maxId : Option Nat := none
   stale : List Nat := []          -- objects whose registry entry has its mark bit set BETWEEN collections (left by `xraise`)
+  /-- inside a container operation on a container of `ProbeDeep` elements: the representation the container's Mark instance presents NOW (an element
+      may be partly assigned, which `MObj` cannot express) -/
+  over : Option (Nat × Obj) := none
   -- statistics (driver's `S` line)
   nMarked : Nat := 0
   nFreed : Nat := 0
@@ -134,6 +141,7 @@ def refObj (t : Tok) : Obj := .raw "Ref" [tokWord t]
 def valWords (e : Ety) (t : Tok) : List Word :=
   match e with
   | .R | .I | .X => [tokWord t]
+  | .D => (match t with | .obj b => [addrOf b, addrOf (b + 1), addrOf (b + 2)] | _ => [0, 0, 0])     -- the three fields: objects b, b+1, b+2
   | _ => [0]
 
 def keyWords (e : Ety) (k : Int) : List Word :=
@@ -184,7 +192,7 @@ def threadObj (st : MState) : Obj :=
 
 def MState.heap (st : MState) : Heap :=
   let hm : Std.HashMap Addr Entry := st.objs.fold (fun acc id o =>
-    if o.raw then acc else acc.insert (addrOf id) ⟨toObj id o, o.root⟩) {}
+    if o.raw then acc else acc.insert (addrOf id) ⟨(match st.over with | some (i, ob) => if i == id then ob else toObj id o | none => toObj id o), o.root⟩) {}
   Heap.ofHashMap hm
     (match st.minId with | some i => addrOf i | none => 2 ^ 64 - 1)
     (match st.maxId with | some i => addrOf i | none => 0)
@@ -215,9 +223,13 @@ def MState.tokOk (st : MState) : Tok → Bool
   | _ => true
 
 /-- does a usable object other than `id`, a stack slot other than `exceptSlot`, or a TLS entry hold a pointer to `id`? -/
+def MObj.elPointsTo (o : MObj) (id : Nat) : Bool :=
+  if o.vt == .D && (o.kind.isArr || o.kind.isMap) then o.el.any fun t => match t with | .obj b => b ≤ id && id ≤ b + 2 | _ => false
+  else o.el.any (· == Tok.obj id)
+
 def MState.hasIncoming (st : MState) (id : Nat) (exceptSlot : Option Nat) : Bool :=
   st.objs.fold (fun acc i o =>
-    acc || (i != id && (o.el.any (· == Tok.obj id) || (o.refKeys && o.key.any (· == (id : Int)))))) false
+    acc || (i != id && (o.elPointsTo id || (o.refKeys && o.key.any (· == (id : Int)))))) false
   || (st.roots.toList.zipIdx.any fun (t, j) => some j != exceptSlot && t == Tok.obj id)
   || st.tls.any (· == some (Tok.obj id))
 
@@ -284,7 +296,7 @@ def parseTypes (kind : Kind) (kt vt : Ety) (arg : String) : Option (Ety × Ety) 
   else if kind.isArr ∧ arg.length = 1 then (parseEty arg.front).map (kt, ·)
   else if kind.isMap ∧ arg.length = 2 then
     match parseEty arg.front, parseEty arg.back with
-    | some k, some v => if k = .F ∨ k = .X then none else some (k, v)
+    | some k, some v => if k = .F ∨ k = .X ∨ k = .D then none else some (k, v)
     | _, _ => none
   else none
 
@@ -626,8 +638,8 @@ def Inner.operandWords (q : Inner) : List Word :=
 
 def bad (st : MState) : MState × List String := (st, ["O bad-op"])
 
-/-- one op line (already split into words) -/
-def MState.step (st : MState) (w : List String) : MState × List String :=
+/-- one op line (already split into words), containers of `ProbeDeep` elements excepted (`MState.step` below) -/
+def MState.stepBase (st : MState) (w : List String) : MState × List String :=
   if w.length > 40 then bad st else
   match w with
   | ["mode", m] =>
@@ -1069,5 +1081,270 @@ def MState.step (st : MState) (w : List String) : MState × List String :=
     (st, [s!"O typechild {k} type={if kept then "kept" else "released"} second={if second then "completed" else "failed"}"])
   | ["aliaschild", k] => if k = "A" || k = "L" then (st, [s!"O aliaschild {k}"]) else bad st
   | _ => bad st
+
+/-! ### containers of `ProbeDeep` elements (element type `D`): the element type's Assign instance ALLOCATES
+
+  `ProbeDeep` is a record of three pointer fields; `ProbeDeep_Assign(self, obj)` makes, for each field in turn, a fresh registered object
+  that points to what the operand's field points to, and stores it in the target.  An element `o<b>` of a `D` container stands for the
+  three fresh objects `b, b+1, b+2`.  The operations that assign elements are ops of their own:
+
+    dpush <c> <b> <tok> | dins <c> <idx> <b> <tok> | daset <c> <idx> <b> <tok> | dtset <c> <key> <b> <tok>     one new element `o<b>` (operand fields = tok)
+    dconcat <c> <src> <b> | dassign <c> <src> <b>                                                               copies of the elements of `src`: `o<b>`, `o<b+3>`, …
+
+  plain, or behind `xin <k> <tok>* |` / `cin <k> |`: `k` counts the ALLOCATION POINTS of the operation (four per assigned element: in front of
+  each of the three allocations, and behind the last store).  The model runs the statement lists of the current source on `Mid.DMach`; the
+  collection of `xin` sees the container as the `k`-th `AView` presents it, with exactly the fresh objects that exist at that point. -/
+
+inductive DeepOp where
+  | dpush | dins | daset | dtset | dconcat | dassign
+deriving Repr, DecidableEq, Inhabited
+
+structure DInner where
+  op : DeepOp
+  id : Nat
+  a : Int := 0
+  base : Nat := 0
+  t : Tok := .nil
+  src : Option Nat := none
+deriving Repr, Inhabited
+
+def MState.isDeep (st : MState) (id : Nat) : Bool :=
+  match st.objs[id]? with
+  | some o => (o.kind.isArr || o.kind.isMap) && o.vt == .D
+  | none => false
+
+def MState.deepSrc (st : MState) (q : DInner) : Option MObj := q.src.bind fun s => st.objs[s]?
+
+/-- the number of elements the operation assigns -/
+def MState.deepCount (st : MState) (q : DInner) : Nat :=
+  match q.op with
+  | .dconcat | .dassign => (match st.deepSrc q with | some os => os.el.size | none => 0)
+  | _ => 1
+
+def MState.freshOk (st : MState) (base n : Nat) : Bool :=
+  base + n ≤ maxObj && (List.range n).all fun i => !st.used.contains (base + i)
+
+def MState.deepParse (st : MState) (w : List String) : Option DInner :=
+  match w with
+  | name :: ids :: rest =>
+    match (parseLong ids).bind natOf with
+    | none => none
+    | some id =>
+      match st.objs[id]? with
+      | none => none
+      | some o =>
+        if !st.isDeep id || o.raw || st.owned id || !st.stale.isEmpty then none else
+        let tokArg (s : String) : Option Tok :=
+          match parseTok s with
+          | some t => if st.tokOk t && t.isObjOrNil then some t else none
+          | none => none
+        let baseArg (s : String) (n : Nat) : Option Nat :=
+          match (parseLong s).bind natOf with
+          | some b => if st.freshOk b n then some b else none
+          | none => none
+        match name, rest with
+        | "dpush", [bs, ts] =>
+          (match baseArg bs 3, tokArg ts with
+           | some b, some t => if o.kind.isArr then some { op := .dpush, id, base := b, t } else none
+           | _, _ => none)
+        | "dins", [idxs, bs, ts] =>
+          (match parseLong idxs, baseArg bs 3, tokArg ts with
+           | some idx, some b, some t =>
+             if o.kind.isArr && 0 ≤ idx && idx ≤ (o.el.size : Int) && !(o.kind == .L && idx == (o.el.size : Int) && idx != 0)
+             then some { op := .dins, id, a := idx, base := b, t } else none
+           | _, _, _ => none)
+        | "daset", [idxs, bs, ts] =>
+          (match parseLong idxs, baseArg bs 3, tokArg ts with
+           | some idx, some b, some t =>
+             if o.kind.isArr && 0 ≤ idx && idx < (o.el.size : Int) then some { op := .daset, id, a := idx, base := b, t } else none
+           | _, _, _ => none)
+        | "dtset", [keys, bs, ts] =>
+          (match parseLong keys, baseArg bs 3, tokArg ts with
+           | some key, some b, some t => if o.kind.isMap && o.kt == .I then some { op := .dtset, id, a := key, base := b, t } else none
+           | _, _, _ => none)
+        | nm, [ss, bs] =>
+          if nm != "dconcat" && nm != "dassign" then none else
+          (match (parseLong ss).bind natOf with
+           | some s =>
+             match st.objs[s]? with
+             | some os =>
+               if s = id || os.raw || st.owned s || !st.isDeep s || !o.kind.isArr || !os.kind.isArr then none else
+               (match baseArg bs (3 * os.el.size) with
+                | some b => some { op := if nm = "dconcat" then .dconcat else .dassign, id, base := b, src := some s }
+                | none => none)
+             | none => none
+           | none => none)
+        | _, _ => none
+  | _ => none
+
+/-- the new elements (key, token `o<b>`) and, per element, the tokens its three fresh objects hold -/
+def MState.deepNew (st : MState) (q : DInner) : List ((Int × Tok) × List Tok) :=
+  match q.op with
+  | .dconcat | .dassign =>
+    (match st.deepSrc q with
+     | some os => os.el.toList.zipIdx.map fun (t, i) =>
+         (((0 : Int), Tok.obj (q.base + 3 * i)),
+          match t with | .obj sb => [Tok.obj sb, Tok.obj (sb + 1), Tok.obj (sb + 2)] | _ => [Tok.nil, Tok.nil, Tok.nil])
+     | none => [])
+  | .dtset => [((q.a, Tok.obj q.base), [q.t, q.t, q.t])]
+  | _ => [(((0 : Int), Tok.obj q.base), [q.t, q.t, q.t])]
+
+/-- the fresh objects in allocation order: (id, the word it holds) -/
+def MState.deepFresh (st : MState) (q : DInner) : List (Nat × Tok) :=
+  (st.deepNew q).flatMap fun e =>
+    match e.1.2 with
+    | .obj b => e.2.zipIdx.map fun (t, f) => (b + f, t)
+    | _ => []
+
+def MState.addFresh (st : MState) (fr : List (Nat × Tok)) : MState :=
+  fr.foldl (fun s (it : Nat × Tok) =>
+    (s.doNewObj it.1 { kind := .P, k := 1, root := false, owner := none, el := #[it.2], key := #[] } none none).1) { st with full := false }
+
+/-- the container when the operation has completed -/
+def MState.deepPost (st : MState) (q : DInner) (o : MObj) : MObj :=
+  let ne := (st.deepNew q).map (·.1)
+  match q.op with
+  | .dpush => { o with el := o.el.push (Tok.obj q.base) }
+  | .dins => { o with el := o.el.insertIdxIfInBounds q.a.toNat (Tok.obj q.base) }
+  | .daset => { o with el := o.el.setIfInBounds q.a.toNat (Tok.obj q.base) }
+  | .dtset =>
+    (match o.mapFind q.a with
+     | some i => { o with el := o.el.setIfInBounds i (Tok.obj q.base) }
+     | none => { o with el := o.el.push (Tok.obj q.base), key := o.key.push q.a })
+  | .dconcat => { o with el := o.el ++ (ne.map (·.2)).toArray }
+  | .dassign => { o with el := (ne.map (·.2)).toArray }
+
+/-- 1: the collection at allocation point `k` is modelled; 0: known finding KF-C01-array-uninit-slots (`Array_Mark` would read slots that are not
+    constructed yet); 2: known finding KF-C01-unlinked-entry-assign (the entry under construction lies outside the structure: a field that is
+    already stored is presented by no Mark instance) -/
+def MState.deepSafe (st : MState) (q : DInner) (o : MObj) (k : Nat) : Nat :=
+  let ne := st.deepCount q
+  if k ≥ 4 * ne then 1 else
+  let i := k / 4
+  let k' := k % 4
+  match o.kind with
+  | .A => if (q.op == .dconcat || q.op == .dassign) && i + 1 != ne then 0 else 1
+  | .L => if q.op == .daset || k' == 0 then 1 else 2
+  | .T => if k' == 0 then 1 else 2
+  | _ => if (o.mapFind q.a).isSome || k' == 0 then 1 else 2
+
+/-- full mode: a threshold collection may run at ANY allocation of the operation: only operations modelled at every allocation point are accepted -/
+def MState.deepAllSafe (st : MState) (q : DInner) (o : MObj) : Bool :=
+  (List.range (4 * st.deepCount q)).all fun k => st.deepSafe q o k == 1
+
+abbrev DElem := Int × List Word
+
+def deepD : Mid.Deep DElem where
+  parts old new := (List.range 4).map fun k => (new.1, new.2.take k ++ old.2.drop k)
+
+/-- the operation on the machine of `Cello.Heap.Mid` that records the allocation points, interpreting the statement lists of the current source -/
+def MState.deepRun (st : MState) (q : DInner) (o : MObj) : Mid.DMach DElem :=
+  let es : List DElem := o.entries.map fun e => (e.1, valWords .D e.2)
+  let k := midKind o.kind
+  let src : List DElem := (st.deepNew q).map fun e => (e.1.1, valWords .D e.1.2)
+  let found := (o.mapFind q.a).getD es.length
+  let env : Mid.Env DElem := { shape := k.shape, zero := (0, [0, 0, 0]), src := src }
+  match q.op with
+  | .dpush => Mid.runOpD deepD k .push { env with i := es.length } es
+  | .dins => Mid.runOpD deepD k .pushAt { env with i := q.a.toNat } es
+  | .daset => Mid.runOpD deepD k .set { env with i := q.a.toNat } es
+  | .dtset => Mid.runOpD deepD k (if (o.mapFind q.a).isSome then .set else .setNew) { env with i := found } es
+  | .dconcat => Mid.runOpD deepD k .concat { env with i := es.length + src.length } es
+  | .dassign => Mid.runOpD deepD k .assign { env with i := es.length + src.length } es
+
+/-- the container as its Mark instance presents it at an allocation point -/
+def deepObjOf (o : MObj) (elems : List DElem) : Obj :=
+  match o.kind with
+  | .A => .cont "Array" (seqElems "ProbeDeep" (elems.map (·.2)))
+  | .L => .cont "List" (seqElems "ProbeDeep" (elems.map (·.2)))
+  | .T => .cont "Table" (mapElems o.kt.name "ProbeDeep" (elems.map fun e => (keyWords o.kt e.1, e.2)))
+  | _ => .cont "Tree" (mapElems o.kt.name "ProbeDeep" (elems.map fun e => (keyWords o.kt e.1, e.2)))
+
+def sameDElems (isMap : Bool) (a b : List DElem) : Bool :=
+  if isMap then
+    (a.toArray.qsort (fun x y => x.1 < y.1)).toList == (b.toArray.qsort (fun x y => x.1 < y.1)).toList
+  else a == b
+
+def DInner.operandWords (q : DInner) : List Word :=
+  [addrOf q.id] ++ (match q.src with | some s => [addrOf s] | none => [tokWord q.t])
+
+/-- the state when the operation has completed: the container, every fresh object that is not there yet -/
+def MState.deepFinish (st : MState) (q : DInner) (post : MObj) (fresh : List (Nat × Tok)) : MState :=
+  let st1 := { (st.addFresh fresh) with full := st.full, over := none }
+  { st1 with objs := st1.objs.insert q.id post }
+
+def MState.deepXin (st : MState) (k : Nat) (ts : List (Option Tok)) (q : DInner) (o : MObj) : MState × List String :=
+  let safe := st.deepSafe q o k
+  let fresh := st.deepFresh q
+  let post := st.deepPost q o
+  let stPost := st.deepFinish q post fresh
+  if safe != 1 then (stPost, ["O xin ub"]) else
+  let r := st.deepRun q o
+  let n := 4 * st.deepCount q
+  let env : Mid.Env DElem := { shape := (midKind o.kind).shape, zero := (0, [0, 0, 0]) }
+  let postElems : List DElem := post.entries.map fun e => (e.1, valWords .D e.2)
+  let midTxt := s!"R mid={if r.aviews.length == n && !r.m.stuck && sameDElems o.kind.isMap (r.m.final env) postElems then "agree" else "differ"}"
+  match r.aviews[k]? with
+  | none => (stPost, [s!"O xin calls={n} fired=0", midTxt])
+  | some v =>
+    if !v.ok then (stPost, ["O xin ub", midTxt]) else
+    -- the fresh objects that exist at this allocation point: those of the elements already assigned, and `min k' 3` of the current one
+    let have_ := 3 * (k / 4) + min (k % 4) 3
+    let st0 := { (st.addFresh (fresh.take have_)) with over := some (q.id, deepObjOf o v.elems) }
+    let words := ts.filterMap (·.map tokWord) ++ q.operandWords
+    let (st1, lines) := st0.exactCollect words "x"
+    ((st1.deepFinish q post (fresh.drop have_)), lines ++ [s!"O xin calls={n} fired=1", midTxt])
+
+def MState.deepCin (st : MState) (k : Nat) (q : DInner) (o : MObj) : MState × List String :=
+  let safe := st.deepSafe q o k
+  let n := 4 * st.deepCount q
+  let (st', live) := (st.deepFinish q (st.deepPost q o) (st.deepFresh q)).checkpoint
+  if safe != 1 then (st', [s!"O cin ub live={setText live}"])
+  else ({ st' with nCollect := st.nCollect + (if k < n then 1 else 0) }, [s!"O cin calls={n} fired={if k < n then 1 else 0} live={setText live}"])
+
+/-- an op of the base interpreter that would touch a container of `ProbeDeep` elements in a way only the deep ops model: refused -/
+def MState.touchesDeep (st : MState) (w : List String) : Bool :=
+  let isD (s : String) : Bool := match (parseLong s).bind natOf with | some id => st.isDeep id | none => false
+  match w with
+  | "push" :: c :: _ | "aset" :: c :: _ | "tset" :: c :: _ | "arem" :: c :: _ | "ins" :: c :: _ => isD c
+  | "assign" :: d :: s :: _ | "concat" :: d :: s :: _ => isD d || isD s
+  | "copy" :: _ :: s :: _ => isD s
+  | _ => false
+
+/-- one op line (already split into words) -/
+def MState.step (st : MState) (w : List String) : MState × List String :=
+  if w.length > 40 then bad st else
+  match w with
+  | "xin" :: ks :: rest =>
+    let toks := rest.takeWhile (· != "|")
+    let opw := (rest.dropWhile (· != "|")).drop 1
+    (match st.deepParse opw with
+     | some q =>
+       if st.full || !st.stale.isEmpty then bad st else
+       (match (parseLong ks).bind natOf, st.objs[q.id]? with
+        | some k, some o =>
+          let ts := toks.map parseTok
+          if k > 100000 || ts.any (fun t => match t with | some t => !st.tokOk t | none => true) || !st.typesAnchored [] true then bad st
+          else ({ st with started := true }).deepXin k ts q o
+        | _, _ => bad st)
+     | none => if st.touchesDeep opw || (match opw with | _ :: c :: _ => st.touchesDeep ["push", c] | _ => false) then bad st else st.stepBase w)
+  | "cin" :: ks :: "|" :: opw =>
+    (match st.deepParse opw with
+     | some q =>
+       if !st.full then bad st else
+       (match (parseLong ks).bind natOf, st.objs[q.id]? with
+        | some k, some o => if k > 100000 || !st.deepAllSafe q o then bad st else st.deepCin k q o
+        | _, _ => bad st)
+     | none => if st.touchesDeep opw || (match opw with | _ :: c :: _ => st.touchesDeep ["push", c] | _ => false) then bad st else st.stepBase w)
+  | _ =>
+    match st.deepParse w with
+    | some q =>
+      (match st.objs[q.id]? with
+       | some o =>
+         if st.full && !st.deepAllSafe q o then bad st else
+         let st1 := st.deepFinish q (st.deepPost q o) (st.deepFresh q)
+         if st.full then let (s2, live) := st1.checkpoint; (s2, [s!"O ok live={setText live}"]) else (st1, ["O ok"])
+       | none => bad st)
+    | none => if st.touchesDeep w then bad st else st.stepBase w
 
 end Cello.Heap
